@@ -71,6 +71,13 @@ def check_case(ctx, L, case):
     obj_dec = obs.obj
     is_prim = L.is_prim(case.type)
     cc = TPM_CC(case.cc) if case.cc is not None else None
+    if any(t.endswith("#enc") for _, t, _ in case.events) and len(case.data) % 3 == 0:
+        # events and objects are kept while the process goes on decoding: every other encrypted parameter layout is used
+        # once between the decode and the conversions
+        from .. import history
+
+        history.churn()
+        ctx.count("conversions-after-other-decodes")
 
     obj_ev = ctx.guard(lambda: events_to_obj(list(events), command_code=cc), "C11:events_to_obj", payload)
     if obj_ev is None and not is_prim:
